@@ -2,7 +2,7 @@
 import os, subprocess, time
 
 ROOT = os.path.dirname(os.path.dirname(os.path.abspath(__file__)))
-TARGET = os.path.join(ROOT, "build", "alt", "target") if os.environ.get("VERIF_REPO") else os.path.join(ROOT, "build", "target")
+TARGET = os.path.join(ROOT, "build", os.environ.get("VERIF_ALT", "alt"), "target") if os.environ.get("VERIF_REPO") else os.path.join(ROOT, "build", "target")
 RUNNER = os.path.join(ROOT, "build", "bin", "runner")
 
 def engine(prop, spec, tier, seed, work):
